@@ -43,6 +43,7 @@ var (
 	ErrInvalidPeriod                 = errors.New("Please specify a period in the form period(5s) where 5s can be any valid Go duration expression")
 	ErrInvalidStride                 = errors.New("Please specify a stride in the form stride(5s) where 5s can be any valid Go duration expression")
 	ErrNotSelect                     = errors.New("Only SELECT statements are supported")
+	ErrUnterminatedIdentifier        = errors.New("Unterminated backtick-quoted identifier")
 )
 
 var aggregateFuncs = map[string]func(interface{}) expr.Expr{
@@ -217,7 +218,7 @@ func Parse(sql string) (*Query, error) {
 // statement (as opposed to e.g. a DELETE, INSERT, UNION, SET or DDL statement,
 // which the SQL grammar accepts but zenodb doesn't support).
 func parseSelect(sql string) (*sqlparser.Select, error) {
-	parsed, err := sqlparser.Parse(sql)
+	parsed, err := safeParse(sql)
 	if err != nil {
 		return nil, err
 	}
@@ -226,6 +227,77 @@ func parseSelect(sql string) (*sqlparser.Select, error) {
 		return nil, fmt.Errorf("%v: %v", ErrNotSelect, reflect.TypeOf(parsed))
 	}
 	return stmt, nil
+}
+
+// safeParse is like sqlparser.Parse but rejects input on which the sqlparser
+// tokenizer does not terminate.
+func safeParse(sql string) (sqlparser.Statement, error) {
+	if err := checkLiteralIdentifiers(sql); err != nil {
+		return nil, err
+	}
+	return sqlparser.Parse(sql)
+}
+
+// checkLiteralIdentifiers checks that every backtick-quoted identifier in the
+// given SQL is terminated. The sqlparser tokenizer scans such identifiers
+// without checking for the end of the input, so an unterminated one makes it
+// loop (and allocate) forever. This scan follows the tokenizer's own rules for
+// string literals and comments, inside of which backticks are not special.
+func checkLiteralIdentifiers(sql string) error {
+	n := len(sql)
+	for i := 0; i < n; {
+		c := sql[i]
+		switch {
+		case c == '\'' || c == '"':
+			// String literal, delimiter is escaped by doubling it or with a backslash
+			closed := false
+			i++
+			for i < n && !closed {
+				ch := sql[i]
+				i++
+				if ch == '\\' {
+					i++
+				} else if ch == c {
+					if i < n && sql[i] == c {
+						i++
+					} else {
+						closed = true
+					}
+				}
+			}
+			if !closed {
+				// tokenizer reports this itself
+				return nil
+			}
+		case c == '`':
+			// The tokenizer consumes the byte after the opening backtick
+			// unconditionally and then scans for the closing backtick.
+			end := -1
+			if i+2 <= n {
+				end = strings.IndexByte(sql[i+2:], '`')
+			}
+			if end < 0 {
+				return ErrUnterminatedIdentifier
+			}
+			i += 2 + end + 1
+		case c == '/' && i+1 < n && sql[i+1] == '*':
+			end := strings.Index(sql[i+2:], "*/")
+			if end < 0 {
+				// tokenizer reports this itself
+				return nil
+			}
+			i += 2 + end + 2
+		case (c == '-' && i+1 < n && sql[i+1] == '-') || (c == '/' && i+1 < n && sql[i+1] == '/'):
+			end := strings.IndexByte(sql[i:], '\n')
+			if end < 0 {
+				return nil
+			}
+			i += end + 1
+		default:
+			i++
+		}
+	}
+	return nil
 }
 
 func parse(stmt *sqlparser.Select) (*Query, error) {
